@@ -2,8 +2,33 @@
 """Regenerate /verif/MANIFEST.json from vf/registry.py and the check modules present."""
 import json, os, sys
 ROOT = os.path.dirname(os.path.dirname(os.path.abspath(__file__)))
-sys.path.insert(0, ROOT)
-from vf.registry import P
+import ast
+
+
+def load_meta():
+    P = {}
+    d = os.path.join(ROOT, "vf", "checks")
+    for fn in sorted(os.listdir(d)):
+        if not (fn.startswith("c") and fn.endswith(".py")):
+            continue
+        tree = ast.parse(open(os.path.join(d, fn)).read())
+        meta = {}
+        for node in tree.body:
+            if isinstance(node, ast.Assign) and len(node.targets) == 1 and getattr(node.targets[0], "id", None) in ("META", "LEVEL"):
+                v = ast.literal_eval(node.value)
+                if node.targets[0].id == "META":
+                    meta.update(v)
+                else:
+                    meta["level_var"] = v
+        if meta.get("text"):
+            meta.setdefault("level", meta.get("level_var", "exploration"))
+            assert meta.get("level_var", meta["level"]) == meta["level"], fn
+            meta.setdefault("ref", "DESIGN.md §5 " + fn[:-3].upper())
+            P[fn[:-3].upper()] = meta
+    return P
+
+
+P = load_meta()
 
 props = [json.loads(l) for l in open(os.path.join(ROOT, "properties.jsonl"))]
 na_file = os.path.join(ROOT, "vf", "not_applicable.json")
